@@ -499,6 +499,28 @@ macro_rules! set_mod {
                         let (r, live) = consume(make(a[2]), hi);
                         format!("ok {} {}", r, live)
                     }
+                    // every message length 0..=<maxmsg> with a context of <ctxlen> bytes: sign (rnd fixed) and verify; first failure.
+                    // lengrid <set> <xi> <ctxlen> <maxmsg> <mode>
+                    "lengrid" => {
+                        let (pk, sk) = gen(a[2]);
+                        let (cl, mm) = (a[3].parse::<usize>().unwrap(), a[4].parse::<usize>().unwrap());
+                        let ctx = vec![0x3cu8; cl];
+                        let mut bad: Option<String> = None;
+                        for ml in 0..=mm {
+                            let msg: Vec<u8> = (0..ml).map(|i| (i as u8) ^ 0x5a).collect();
+                            let mut rng = ScriptRng { script: VecDeque::from(vec![Reply::Fill(vec![0x77u8; 32])]) };
+                            let r = match a[5] {
+                                "pure" => sk.try_sign_with_rng(&mut rng, &msg, &ctx),
+                                p => sk.try_hash_sign_with_rng(&mut rng, &msg, &ctx, &ph(p)),
+                            };
+                            let v = match r {
+                                Ok(sig) => match a[5] { "pure" => pk.verify(&msg, &sig, &ctx), p => pk.hash_verify(&msg, &sig, &ctx, &ph(p)) },
+                                Err(_) => false,
+                            };
+                            if !v { bad = Some(format!("msglen={}", ml)); break; }
+                        }
+                        match bad { None => format!("ok none {}", mm + 1), Some(b) => format!("ok fail {}", b) }
+                    }
                     "os_sign" => match sk_of_spec(a[2]) {
                         Ok(sk) => {
                             let (msg, ctx) = (hex(a[3]), hex(a[4]));
